@@ -186,7 +186,7 @@ def _part_a(ctx, case, rec, d):
         rec.violation('fit()|' + exc_signature(e), {'held_result': True}, {'type': type(e).__name__, 'msg': str(e)[:300]})
     for si, seq in enumerate(case['seqs']):
         # every third file repeats a source name (two lines may well carry the same name)
-        lines = [_line('s%02d_%s' % ((i if (si % 3 or i == 0) else i - 1), kd) if si % 3 == 0 and False else ('s%02d' % (i // 2 if si % 3 == 0 else i)), kd, base, i, seed) for i, kd in enumerate(seq)]
+        lines = [_line('s%02d_%s' % ((i if (si % 3 or i == 0) else i - 1), kd) if si % 3 == 0 and False else (('s#%02d' if si % 4 == 1 else 's%02d') % (i // 2 if si % 3 == 0 else i)), kd, base, i, seed) for i, kd in enumerate(seq)]          # (a '#' is a character like any other in a name)
         if si % 3 == 0 and len(seq) >= 2:
             rec.cls('duplicate-source-names')
         srcs = [Source.from_ascii(l) for l in lines]
